@@ -69,6 +69,9 @@ def re_text(e, prec=0):
     if k == "|":
         t = re_text(e[1], 0) + "|" + re_text(e[2], 0)
         return "(?:" + t + ")" if prec > 0 else t
+    if k in ("*?", "+?", "??"):
+        # lazy quantifier: same language as the greedy one (the model is given the greedy form), another preferred match
+        return re_text((k[0], e[1]), prec) + "?"
     if k in "*+?":
         inner = re_text(e[1], 2)
         if e[1][0] in "*+?e^$":
@@ -92,7 +95,7 @@ def re_enc(e):
         return "[%s%02x" % ("1" if e[1] else "0", len(e[2])) + "".join("%02x%02x" % (lo, hi) for lo, hi in e[2])
     if k in "&|":
         return k + re_enc(e[1]) + re_enc(e[2])
-    return k + re_enc(e[1])
+    return k[0] + re_enc(e[1])
 
 
 def top_level_alt(e):
@@ -156,6 +159,14 @@ def gen_groupdefs(rng, deep=False):
             ents += rng.choice([[("i", b"refs/tags"), ("x", b"refs/tags/v1"), ("i", b"refs/tags")],
                                 [("x", b"refs/heads/feature"), ("i", b"refs/heads"), ("x", b"refs/heads/feature")],
                                 [("i", b"refs/heads"), ("x", b"refs/heads/main"), ("i", b"refs/heads")]])
+        if rng.random() < 0.15:
+            # two prefixes of which one is a leading substring of the other, but NOT at a component boundary: both count
+            a, b = rng.choice([(b"refs/foo", b"refs/foobar"), (b"refs/he", b"refs/heads"), (b"refs/a", b"refs/abc"),
+                               (b"refs/tags/v1", b"refs/tags/v1.0"), (b"refs/heads/feature", b"refs/heads/feature/y")])
+            pair = [("i", a), ("i", b)]
+            if rng.random() < 0.5:
+                pair.reverse()
+            ents = pair + ents if rng.random() < 0.6 else ents + pair
         if ents:
             defs.append((sym, ents))
             syms.append(sym)
@@ -222,6 +233,21 @@ def gen_re_refs(rng):
         if form == 4:
             return ("|", ("&", ("^",), lit_re(a)), lit_re(b"refs/heads/a$"))      # ends with an escaped dollar
         return ("&", ("^",), ("&", ("|", lit_re(a), lit_re(b)), ("$",)))
+    if rng.random() < 0.2:
+        # the whole name matches, but the match a leftmost-first engine PREFERS is a proper prefix of it: an earlier
+        # alternative that is a prefix of a later one, an optional tail written empty-first, a lazy quantifier at the end
+        form = rng.randrange(6)
+        if form == 0:
+            return ("|", lit_re(b"refs/tags/v1"), lit_re(rng.choice([b"refs/tags/v1.0", b"refs/tags/v10"])))
+        if form == 1:
+            return ("&", lit_re(rng.choice([b"refs/heads/feature", b"refs/foo", b"refs/stash"])), ("|", ("e",), ("&", ("c", 47), ("*", (".",)))))
+        if form == 2:
+            return ("&", lit_re(rng.choice([b"refs/heads/", b"refs/tags/", b"refs/"])), (rng.choice(["*?", "+?"]), (".",)))
+        if form == 3:
+            return ("|", lit_re(b"refs/foo"), ("&", lit_re(b"refs/foo"), ("*", (".",))))
+        if form == 4:
+            return ("&", lit_re(b"refs/heads/"), ("&", ("??", lit_re(b"feature/")), ("+?", ("[", False, [(97, 122), (47, 47)]))))
+        return ("&", lit_re(b"refs/tags/release-1.2.3"), ("|", ("e",), lit_re(b"rc1")))
     k = rng.random()
     if k < 0.3:
         return ("&", lit_re(rng.choice([b"refs/heads/", b"refs/tags/", b"refs/"])), ("*", (".",)))
